@@ -1001,3 +1001,77 @@ func init() {
 	register("both", &h.Scenario{Name: "C16-udp-one-send-per-service-type", Prop: "C16", P: 0, F: 0, D: -1, Run: c16SendEach(false), Check: c16SendEachOracle})
 	register("both", &h.Scenario{Name: "C16-tcp-one-send-per-service-type", Prop: "C16", P: 0, F: 0, D: -1, Run: c16SendEach(true), Check: c16SendEachOracle})
 }
+
+// ---- every frame length through every socket kind ----
+
+// c16EveryLength: "frame sizes from the 8-byte minimum to the largest encodable frame": one Send per
+// frame length 8..531 (a routing indication / tunnelling request carrying a raw message of every
+// length), through the tunnel socket (UDP, TCP) and the router socket. Each Send is one write whose
+// length the header announces and which the decoder turns back into the value sent.
+func c16EveryLength(kind int) func() {
+	return func() {
+		w := vnet.Reset()
+		var ep *vnet.Endpoint
+		w.OnCreate = func(e *vnet.Endpoint) { ep = e }
+		var send func(v knxnet.ServicePackable) error
+		var closeFn func()
+		switch kind {
+		case 0:
+			s, err := knxnet.DialTunnelUDP("192.0.2.99:3671")
+			if err != nil {
+				panic(err)
+			}
+			send, closeFn = s.Send, func() { s.Close() }
+		case 1:
+			s, err := knxnet.DialTunnelTCP("192.0.2.99:3671")
+			if err != nil {
+				panic(err)
+			}
+			send, closeFn = s.Send, func() { s.Close() }
+		default:
+			s, err := knxnet.ListenRouter("224.0.23.12:3671")
+			if err != nil {
+				panic(err)
+			}
+			send, closeFn = s.Send, func() { s.Close() }
+		}
+		ep.OnWrite = func(wr vnet.WriteRec) { mc.Log(Wrote{hex.EncodeToString(wr.Data)}) }
+		mc.SetQuiet(true)
+		i := 0
+		for n := 1; n <= 524; n++ {
+			raw := make(cemi.LRaw, n)
+			for k := range raw {
+				raw[k] = byte(n + k)
+			}
+			var v knxnet.ServicePackable
+			if kind == 2 {
+				v = &knxnet.RoutingInd{Payload: &cemi.LRawReq{LRaw: raw}} // 6 + 1 + n octets
+			} else if n <= 520 {
+				v = &knxnet.TunnelReq{Channel: 1, SeqNumber: uint8(n), Payload: &cemi.LRawReq{LRaw: raw}} // 6 + 4 + 1 + n
+			} else {
+				continue
+			}
+			mc.Log(SendEach{i, fmt.Sprintf("%T", v), dumpSvc(v)})
+			err := send(v)
+			mc.Log(Ret{"SockSend", i, errStr(err), mc.Now()})
+			i++
+		}
+		mc.SetQuiet(false)
+		closeFn()
+	}
+}
+
+func init() {
+	for k, name := range []string{"udp-tunnel-socket", "tcp-tunnel-socket", "router-socket"} {
+		register("both", &h.Scenario{Name: "C16-one-send-per-frame-length-" + name, Prop: "C16", P: 0, F: 0, D: -1, Run: c16EveryLength(k), Check: c16SendEachOracle})
+		register("both", &h.Scenario{Name: "C15-one-send-per-frame-length-" + name, Prop: "C15", P: 0, F: 0, D: -1, Run: c16EveryLength(k), Check: c15SendEachOracle})
+	}
+}
+
+func c15SendEachOracle(tr *mc.Trace) []h.Violation {
+	vs := c16SendEachOracle(tr)
+	for i := range vs {
+		vs[i].Class = strings.Replace(vs[i].Class, "C16:", "C15:", 1)
+	}
+	return vs
+}
